@@ -1,7 +1,7 @@
 """C07 — permissions change only through authorised requests; bans and limits stick."""
 from props import topic_common as tc
 
-KINDS = ["NewGrp", "Sub", "Leave", "SetSelf", "SetOther", "DelSub", "DelTopic", "Unload", "Reload"]
+KINDS = ["NewGrp", "Sub", "Leave", "SetSelf", "SetOther", "DelSub", "DelTopic", "Unload", "Reload", "Conn"]
 BASE = ["NewGrp", "Sub", "Leave", "SetSelf", "SetOther", "DelSub", "Unload"]
 
 
